@@ -61,12 +61,12 @@ def el(i):
     return Obj('ElementDescriptor', {'id': i})
 
 
-def definition_message():
-    """Flat values of a table-definition message in the NCEP layout, with the tables it defines."""
+def definition_message(na=2, nb=4, nd=3):
+    """Flat values of a table-definition message in the NCEP layout (the first na / nb / nd entries of Table A / B / D), with the tables it defines."""
     values = []
     nodes = []
     # Table A: delayed replication of 000001 000002 000003
-    a = [(b'001', b'MSG TYPE 1 ', b'line2'), (b'002', b'MSG TYPE 2 ', b'')]
+    a = [(b'001', b'MSG TYPE 1 ', b'line2'), (b'002', b'MSG TYPE 2 ', b'')][:na]
     idx_a = len(values)
     values.append(len(a))
     for t in a:
@@ -79,7 +79,7 @@ def definition_message():
         ('0', '48', '002', 'TEMPERATURE                     ', '                        ', 'K                       ', '-', '  1', '+', '       100', ' 12'),
         ('0', '63', '255', 'BALANCE                         ', 'OF SOMETHING            ', 'NUMERIC                 ', '+', '  2', '-', '      1024', ' 17'),
         ('0', '50', '010', 'BOTH NEGATIVE                   ', '                        ', 'M                       ', '-', '  3', '-', '         7', '  9'),
-    ]
+    ][:nb]
     idx_b = len(values)
     values.append(len(b))
     for t in b:
@@ -94,7 +94,7 @@ def definition_message():
         ('3', '60', '001', 'FIRST SEQUENCE                                                  ', ['048001', '048002']),
         ('3', '60', '002', 'SECOND                                                          ', ['101000', '031001', '360001']),
         ('3', '61', '003', 'EMPTY                                                           ', []),
-    ]
+    ][:nd]
     idx_d = len(values)
     values.append(len(d))
     for f, x, y, name, members in d:
@@ -110,6 +110,22 @@ def definition_message():
 def rule_r1(repo):
     rr = RuleResult('C20.R1', 'extraction of Table B / D entries from a definition message (NCEP layout), folded on a scripted message')
     fi = repo.own_method('BufrTableDefinitionProcessor', 'process')
+    # messages that define only elements, only sequences, or nothing: every section still has its replication factor
+    for na, nb, nd in ((2, 0, 3), (0, 4, 0), (0, 0, 1), (1, 1, 1), (0, 0, 0), (2, 0, 0)):
+        nodes, values, want_b, want_d = definition_message(na, nb, nd)
+        it = DefInterp(repo, 'BufrTableDefinitionProcessor')
+        td = Obj('TemplateDataStub', {'decoded_nodes': nodes, 'decoded_values': values})
+        msg = Obj('BufrMessage', {'n_subsets': Obj('P', {'value': 1}), 'template_data': Obj('P', {'value': td})})
+        res = it.run_function(fi, lambda: {'self': Obj('BufrTableDefinitionProcessor', {}), 'bufr_message': msg}, self_class='BufrTableDefinitionProcessor')
+        rr.instance('definition message with %d Table A, %d Table B and %d Table D entries' % (na, nb, nd))
+        if len(res) != 1:
+            raise AnalysisError('BufrTableDefinitionProcessor.process forks into %d paths on a concrete message' % len(res))
+        r = res[0]
+        out = r.value if r.ok else None
+        if not r.ok or not (isinstance(out, list) and len(out) == 3) or out[1] != want_b or out[2] != want_d:
+            rr.fail('BufrTableDefinitionProcessor:partial-tables', fi.where, 'a definition message with %d Table A, %d Table B and %d Table D entries gives %s; expected the '
+                    'elements %s and the sequences %s' % (na, nb, nd, ('raises ' + r.exc.cls) if not r.ok else repr(out[1:])[:300], sorted(want_b), sorted(want_d)),
+                    witness={'table_a': na, 'table_b': nb, 'table_d': nd})
     nodes, values, want_b, want_d = definition_message()
     it = DefInterp(repo, 'BufrTableDefinitionProcessor')
     td = Obj('TemplateDataStub', {'decoded_nodes': nodes, 'decoded_values': values})
@@ -345,6 +361,10 @@ def rule_r3(repo):
 
         def imported_call(self2, qual, args, kwargs, node, frame):
             if qual == 'copy.deepcopy':
+                memo = args[1] if len(args) > 1 else kwargs.get('memo')
+                if isinstance(memo, dict):
+                    store = memo.setdefault('__copies__', {})
+                    return _copy_tree(args[0], store)
                 return _copy_tree(args[0])
             return Interp.imported_call(self2, qual, args, kwargs, node, frame)
     cases = [
@@ -354,6 +374,9 @@ def rule_r3(repo):
         ('two nesting levels', [SEQ(360001, [DEL([])]), SEQ(361002, [E(1001), SEQ(360002, [DEL([])]), E(12101)]), E(7004)],
          [(101000, [(361002, [1001, (101000, [12101])])]), 7004]),
         ('ordinary replication kept', [DEL([E(12101)]), E(1001)], [(101000, [12101]), 1001]),
+        ('the same helper sequence object used twice', (lambda h: [h, E(12101), h, E(10004), E(1001)])(SEQ(360001, [DEL([])])), [(101000, [12101]), (101000, [10004]), 1001]),
+        ('the same helper sequence object used twice, nested', (lambda h: [h, SEQ(361002, [E(1001), h, E(12101)]), E(7004)])(SEQ(360002, [DEL([])])),
+         [(101000, [(361002, [1001, (101000, [12101])])]), 7004]),
         ('sequence with ordinary members recursed', [SEQ(301001, [E(1001), SEQ(360001, [DEL([])]), E(12101)])], [(301001, [1001, (101000, [12101])])]),
     ]
     for name, tree, want in cases:
@@ -370,11 +393,23 @@ def rule_r3(repo):
     return rr
 
 
-def _copy_tree(v):
+def _copy_tree(v, memo=None):
+    """copy.deepcopy(v, memo): an object already copied under the same memo is handed out again (as deepcopy does)"""
+    if memo is None:
+        memo = {}
+    if isinstance(v, (Obj, list)) and id(v) in memo:
+        return memo[id(v)][1]
     if isinstance(v, Obj):
-        return Obj(v.cls, dict((k, _copy_tree(x)) for k, x in v.fields.items()))
+        o = Obj(v.cls, {})
+        memo[id(v)] = (v, o)
+        for k, x in v.fields.items():
+            o.fields[k] = _copy_tree(x, memo)
+        return o
     if isinstance(v, list):
-        return [_copy_tree(x) for x in v]
+        out = []
+        memo[id(v)] = (v, out)
+        out.extend(_copy_tree(x, memo) for x in v)
+        return out
     return v
 
 
